@@ -304,7 +304,7 @@ static long ledgerScript(const Req& r, Ledger& L, int mode, long arg, std::strin
                 }
                 XV_CATCH_ALL(d)
                 nEvents = d.nEvents;
-                if (d.out.find("EXC\tFOREIGN") != std::string::npos) note += "FOREIGN-EXCEPTION ";
+                if (d.out.compare(0, 12, "EXC\tFOREIGN\n") == 0 || d.out.find("\nEXC\tFOREIGN\n") != std::string::npos) note += "FOREIGN-EXCEPTION ";
             }
             delete p1; delete p2;
         } else if (api == "dom") {
